@@ -1,7 +1,7 @@
 (* Lemmas for C11, strips and fans: naturality, model = spec on labels for every length,
    counts, the per-<p> loop.  The slice bounds are those of the generated Gen/Strips.v. *)
 From Coq Require Import List Bool ZArith Arith Lia ZifyNat.
-From PC Require Import Base.Outcome Base.Py Base.PySlice Gen.Strips Model.Strips.
+From PC Require Import Base.Outcome Base.Py Base.PySlice Base.NpProg Gen.Strips Gen.Triangulate Model.Strips.
 Import ListNotations.
 Local Open Scope nat_scope.
 Ltac Zify.zify_post_hook ::= Z.div_mod_to_equations.
@@ -253,7 +253,7 @@ Definition expand {A} (kd : kind) (rows : list A) : outcome (list (tri A)) :=
 Lemma extend_blocks {A} (d : A) kd (rows : list A) :
   exists bl, extend kd rows = Ok bl /\ concat bl = at_rows d rows (expand_spec kd (length rows)).
 Proof.
-  destruct kd; simpl.
+  destruct kd; unfold extend, ext_of, load_tristrips, load_trifans; cbn [expand_spec].
   - pose proof (strip_rows d rows) as H. unfold strip in H.
     destruct (extend_strip rows) as [bl|e]; simpl in H; [|discriminate].
     exists bl. split; [reflexivity|]. injection H as H. exact H.
@@ -282,12 +282,14 @@ Proof.
     rewrite Hcc, concat_app, Hc. simpl. rewrite <- app_assoc. reflexivity.
 Qed.
 
-Theorem load_expand_multi_p {A} (d : A) kd k (ps : list (list A)) : k > 0 -> ps <> [] ->
-  Forall (fun p => length p mod k = 0) ps ->
-  load_expand kd k ps = Ok (concat (map (p_triangles d kd k) ps)).
+Theorem load_expand_multi_p {A} (d : A) kd mo (ps : list (list A)) : ps <> [] ->
+  Forall (fun p => length p mod (S mo) = 0) ps ->
+  load_expand kd mo ps = Ok (concat (map (p_triangles d kd (S mo)) ps)).
 Proof.
-  intros Hk Hne Hall. unfold load_expand. destruct ps as [|p ps]; [contradiction|].
-  destruct (load_loop_spec d kd k (p :: ps) Hk Hall []) as [il [Hil Hc]].
+  intros Hne Hall. unfold load_expand, load_iter_reversed, load_concat_reversed, load_cols.
+  destruct ps as [|p ps]; [contradiction|].
+  replace (Z.to_nat (Z.of_nat mo + 1)) with (S mo) by lia.
+  destruct (load_loop_spec d kd (S mo) (p :: ps) ltac:(lia) Hall []) as [il [Hil Hc]].
   rewrite Hil, Hc. reflexivity.
 Qed.
 
